@@ -125,6 +125,11 @@ var hasArray = []bool{false, false, true, true}
 // ref: >=0 struct node index; <0 source -(s+1); none = unconnected
 const none = 1 << 20
 
+// alertReader is a subscriber that does something (reads a node) when alerted.
+type alertReader func()
+
+func (a alertReader) Alert(version int, state nodes.NodeState) { a() }
+
 type mnode struct {
 	kind   int
 	scalar []int // per scalarPorts entry
@@ -135,7 +140,8 @@ type mnode struct {
 
 type world struct {
 	srcVal  []string
-	srcKind []int // 0 parameter.Value, 1 nodes.ValueNode
+	srcKind []int // 0 parameter.Value, 1 nodes.ValueNode, 2 nodes.FuncValue over a function that reads cell[s]
+	cell    []*string
 	nodes   []*mnode
 
 	// real side
@@ -324,7 +330,13 @@ func (Scenario) Run(c choice.Chooser, opt sim.Options) (res sim.Result) {
 	ns := 1 + c.Intn("g:sources", 5)
 	for s := 0; s < ns; s++ {
 		k := c.Intn("g:srckind", 2)
+		if k == 1 && c.Intn("g:funcvalue", 3) == 2 {
+			// a value node initialised from a function that reads its
+			// environment (cell): evaluated once, however often it is read
+			k = 2
+		}
 		w.srcKind = append(w.srcKind, k)
+		w.cell = append(w.cell, nil)
 		v := fmt.Sprintf("s%d.0", s)
 		if c.Intn("g:twin", 3) == 2 {
 			// look-alike sources: same name, same value, same version
@@ -349,6 +361,13 @@ func (Scenario) Run(c choice.Chooser, opt sim.Options) (res sim.Result) {
 		if k == 0 {
 			w.params = append(w.params, &parameter.Value[string]{Name: "S", DefaultValue: v})
 			w.values = append(w.values, nil)
+		} else if k == 2 {
+			cell := new(string)
+			*cell = v
+			w.cell[s] = cell
+			w.params = append(w.params, nil)
+			w.values = append(w.values, nodes.FuncValue(func() string { return *cell }))
+			res.Count("probe:funcvalue-source", 1)
 		} else {
 			w.params = append(w.params, nil)
 			w.values = append(w.values, nodes.Value(v))
@@ -419,7 +438,34 @@ func (Scenario) Run(c choice.Chooser, opt sim.Options) (res sim.Result) {
 			w.outRef = append(w.outRef, func() nodes.NodeOutputReference { return n.Out() })
 		}
 	}
+	// Subscribers: a source alerts whoever subscribed to it when it is
+	// updated; a subscriber that reads a node from inside the alert is a read
+	// interleaved with the update (the edit server's hub subscribes this way).
+	// What such a read returns is not judged (the update is in flight); what
+	// it executes is judged with the update, and every read after the update
+	// returned must be fresh.
+	var subs []string
+	for s := 0; s < ns; s++ {
+		if c.Intn("g:subscriber", 4) != 3 {
+			continue
+		}
+		target := c.Intn("g:subnode", nn)
+		a := alertReader(func() {
+			defer func() { recover() }()
+			res.Count("fault:subscriber-reads-a-node-inside-the-alert", 1)
+			w.val[target]()
+		})
+		if w.srcKind[s] == 0 {
+			w.params[s].AddSubscription(a)
+		} else {
+			w.values[s].AddSubscription(a)
+		}
+		subs = append(subs, fmt.Sprintf("src%d->read n%d", s, target))
+	}
 	var shape []string
+	if len(subs) > 0 {
+		shape = append(shape, "subscribers{"+strings.Join(subs, " ")+"}")
+	}
 	for i, m := range w.nodes {
 		var p []string
 		for k, r := range m.scalar {
@@ -451,12 +497,38 @@ func (Scenario) Run(c choice.Chooser, opt sim.Options) (res sim.Result) {
 	serial := 1
 ops:
 	for more := true; more; more = len(hist) < maxHist && c.Intn("more", 16) != 0 {
-		kind := choice.Pick(c, "op:kind", []int{6, 4, 2, 2, 2, 1, 1, 1})
+		kind := choice.Pick(c, "op:kind", []int{12, 8, 4, 4, 4, 2, 2, 2, 1})
 		res.Evals++
 		res.Steps++
 		w.log = w.log[:0]
 		var what string
+		// The current value of a function-initialised source is what the
+		// source itself reports (an implementation may call the function at
+		// construction or at the first read; either way once): the
+		// from-scratch evaluation uses that reading. If it moves without an
+		// update, everything computed from the earlier reading is stale.
+		for s := range w.srcKind {
+			if w.srcKind[s] == 2 {
+				w.srcVal[s] = w.values[s].Value()
+			}
+		}
 		switch kind {
+		case 8: // the environment a function-initialised source once read changes
+			var fs []int
+			for s := range w.srcKind {
+				if w.srcKind[s] == 2 {
+					fs = append(fs, s)
+				}
+			}
+			if len(fs) == 0 {
+				continue
+			}
+			s := fs[c.Intn("op:src", len(fs))]
+			*w.cell[s] = fmt.Sprintf("s%d.env%d", s, serial)
+			serial++
+			what = fmt.Sprintf("environment of function-initialised src%d changes", s)
+			hist = append(hist, what)
+			res.Count("fault:environment-of-funcvalue-source-changes", 1)
 		case 0: // read a node
 			i := c.Intn("op:node", nn)
 			what = fmt.Sprintf("read n%d", i)
